@@ -2,7 +2,9 @@
     ([hash_consistent]), the repetition map counts hashes ([rep_map_counts]), the bounded walk of
     [identicalPositionCount] sees every earlier occurrence ([window_complete], from a potential function
     that never increases along legal moves and strictly decreases on pawn moves and captures), and
-    therefore counts what the specification counts ([ipc_counts]). *)
+    therefore counts what the specification counts ([ipc_counts]).
+    The clock saturates at [max_int] (Model/Move.v [update_noprogress]); [sep] / [window_complete] speak about
+    clocks below saturation ([unsat]); every clock of a history is at most [max_int] ([hist_clk_le]). *)
 From Coq Require Import NArith ZArith List Bool Lia ZifyBool ZifyNat ZifyN.
 From Morlock.Model Require Import Bits Attacks Move Position Abs Zobrist Board.
 From Morlock.Spec Require Import Chess Game.
@@ -48,7 +50,7 @@ Variable z : ztable.
 
 (** * the history of a played board *)
 Inductive hist : list entry -> N -> Prop :=
-| hist_start p t np : wf_b p t = true -> vcol t -> hist [(p, zhash z p t, np)] t
+| hist_start p t np : wf_b p t = true -> vcol t -> np <= max_int -> hist [(p, zhash z p t, np)] t
 | hist_step p hs n d t m p' : hist ((p, hs, n) :: d) t -> In m (pseudo_legal_moves p t) ->
     pos_move p m = Some p' ->
     hist ((p', zhash z p' (opponent t), update_noprogress n m) :: (p, hs, n) :: d) (opponent t).
@@ -56,7 +58,7 @@ Inductive hist : list entry -> N -> Prop :=
 Lemma hist_head d t : hist d t ->
   vcol t /\ exists p n r, d = (p, zhash z p t, n) :: r /\ wf_b p t = true.
 Proof.
-  induction 1 as [p t np Hwf Ht | p hs n d t m p' H IH Hin Hmv].
+  induction 1 as [p t np Hwf Ht Hnp | p hs n d t m p' H IH Hin Hmv].
   - split; [exact Ht|]. now exists p, np, [].
   - destruct IH as [Ht [q [n0 [r [E Hwf]]]]]. inversion E; subst q hs n0 r.
     split; [apply vcol_opponent|]. exists p', (update_noprogress n m), ((p, zhash z p t, n) :: d).
@@ -69,7 +71,7 @@ Qed.
 Theorem hash_consistent_list d t : hist d t -> forall j e, nth_error d j = Some e ->
   vcol (turn_at t j) /\ wf_b (epos e) (turn_at t j) = true /\ ehash e = zhash z (epos e) (turn_at t j).
 Proof.
-  induction 1 as [p t np Hwf Ht | p hs n d t m p' H IH Hin Hmv]; intros j e Hj.
+  induction 1 as [p t np Hwf Ht Hnp | p hs n d t m p' H IH Hin Hmv]; intros j e Hj.
   - destruct j as [|[|j]]; cbn in Hj; try discriminate. inversion Hj; subst e. cbn. auto.
   - destruct (hist_head _ _ H) as [Ht [q [n0 [r [E Hwf]]]]]. inversion E; subst q hs n0 r.
     destruct j as [|j].
@@ -77,6 +79,17 @@ Proof.
       split; [apply vcol_opponent|]. split; [|reflexivity].
       exact (move_wf p t m p' (wf_inv _ _ (wf_b_WF _ _ Hwf)) Hwf Hin Hmv).
     + cbn [nth_error] in Hj. cbn [turn_at]. rewrite (opp_opp t Ht). now apply IH.
+Qed.
+
+(** every clock of the history is a Go [int]: at most [max_int] *)
+Lemma hist_clk_le d t : hist d t -> forall j e, nth_error d j = Some e -> eclk e <= max_int.
+Proof.
+  induction 1 as [p t np Hwf Ht Hnp | p hs n d t m p' H IH Hin Hmv]; intros j e Hj.
+  - destruct j as [|[|j]]; cbn in Hj; try discriminate. inversion Hj; subst e. exact Hnp.
+  - destruct j as [|j].
+    + cbn in Hj. inversion Hj; subst e. cbn [eclk snd]. apply update_noprogress_le.
+      exact (IH 0%nat _ eq_refl).
+    + cbn [nth_error] in Hj. exact (IH j e Hj).
 Qed.
 
 Lemma hist_nonempty d t : hist d t -> d <> [].
@@ -93,12 +106,13 @@ Definition sep (d : list entry) : Prop :=
   match d with
   | [] => True
   | e0 :: _ => forall j e, nth_error d j = Some e ->
-      (W (epos e0) <= W (epos e))%nat /\ (eclk e0 < N.of_nat j -> (W (epos e0) < W (epos e))%nat)
+      (W (epos e0) <= W (epos e))%nat /\
+      (eclk e0 < max_int -> eclk e0 < N.of_nat j -> (W (epos e0) < W (epos e))%nat)
   end.
 
 Lemma hist_sep d t : hist d t -> sep d.
 Proof.
-  induction 1 as [p t np Hwf Ht | p hs n d t m p' H IH Hin Hmv].
+  induction 1 as [p t np Hwf Ht Hnp | p hs n d t m p' H IH Hin Hmv].
   - intros j e Hj. destruct j as [|[|j]]; cbn in Hj; try discriminate. inversion Hj; subst e.
     split; [lia|]. cbn. lia.
   - destruct (hist_head _ _ H) as [Ht [q [n0 [r [E Hwf]]]]]. inversion E; subst q hs n0 r.
@@ -107,19 +121,29 @@ Proof.
     destruct j as [|j].
     + cbn in Hj. inversion Hj; subst e. cbn [epos fst]. split; [lia|]. lia.
     + cbn [nth_error] in Hj. destruct (IH j e Hj) as [A B]. cbn [epos eclk fst snd] in A, B.
-      split; [lia|]. intros Hc. unfold update_noprogress in Hc.
+      split; [lia|]. intros Hsat Hc. unfold update_noprogress in Hsat, Hc.
       destruct ((mtype m =? Normal) || is_castle m) eqn:Ety.
-      * assert (n < N.of_nat j) by lia. specialize (B H0). lia.
+      * destruct (N.eqb_spec n max_int) as [En|En]; [lia|].
+        assert (Hn1 : n < max_int) by lia. assert (Hn2 : n < N.of_nat j) by lia. specialize (B Hn1 Hn2). lia.
       * specialize (Hlt eq_refl). lia.
 Qed.
 
 (** 4. [window_complete]: a node further back than the head's clock has a position different from the head's:
-    the walk of [identicalPositionCount], bounded by the clock, sees every earlier occurrence. *)
+    the walk of [identicalPositionCount], bounded by the clock, sees every earlier occurrence.
+    The clock saturates at [max_int]; a saturated clock says nothing about nodes more than [max_int] plies
+    back, so either the clock is below saturation or the history has at most [max_int + 1] nodes (and then
+    there is no node that far back: the walk, which also stops at the start node, sees the whole history). *)
+Definition unsat (clk : N) (len : nat) : Prop := clk < max_int \/ N.of_nat len <= max_int + 1.
+
 Theorem window_complete_list d t : hist d t -> forall e0 r j e, d = e0 :: r -> nth_error d j = Some e ->
+  unsat (eclk e0) (length d) ->
   eclk e0 < N.of_nat j -> abs_pos (epos e) <> abs_pos (epos e0).
 Proof.
-  intros H e0 r j e E Hj Hc. pose proof (hist_sep _ _ H) as S. subst d. cbn [sep] in S.
-  destruct (S j e Hj) as [_ B]. specialize (B Hc).
+  intros H e0 r j e E Hj Hu Hc. pose proof (hist_sep _ _ H) as S. subst d. cbn [sep] in S.
+  assert (Hsat : eclk e0 < max_int).
+  { destruct Hu as [Hu|Hu]; [exact Hu|].
+    assert (Hjl : (j < length (e0 :: r))%nat) by (apply nth_error_Some; congruence). lia. }
+  destruct (S j e Hj) as [_ B]. specialize (B Hsat Hc).
   destruct (hash_consistent_list _ _ H j e Hj) as [_ [Hw1 _]].
   destruct (hash_consistent_list _ _ H 0%nat e0 eq_refl) as [_ [Hw0 _]].
   intros Eabs. apply abs_pos_inj in Eabs; [rewrite Eabs in B; lia| |].
